@@ -76,29 +76,59 @@ def used(eng, name):
     eng.assumptions.add("numpy-model:" + name)
 
 
+def _defined(eng, name, kind, n, cell, dtype=None):
+    """a fresh array (a z3 constant) DEFINED cell by cell: out[i] = cell(i) for 0 <= i < n.  Same meaning as the lambda term, but
+    formulas about the result then read a constant array (stable triggers for the quantified clauses of the contracts)."""
+    out = SArr.fresh(kind, n, name=name, dtype=dtype)
+    i = z3.Int(fresh_name("ix"))
+    eng.assume(z3.ForAll([i], z3.Implies(z3.And(i >= 0, i < zint(n)), z3.Select(out.arr, i) == cell(i)), patterns=[z3.Select(out.arr, i)]))
+    return out
+
+
 def np_pad(eng, args, kwargs):
-    """np.pad(v, (before, after)) of a 1-D array, mode 'constant' (zeros)."""
+    """np.pad(v, (before, after)) of a 1-D array, mode 'constant' (zeros).  Concrete shapes, or an array of symbolic
+    length padded at the END only: np.pad(v, (0, m)) with m an int or a symbolic int (m >= 0 is an obligation: numpy
+    raises ValueError for a negative width)."""
     v, width = args[0], args[1]
     if kwargs and set(kwargs) - {"mode"} or kwargs.get("mode", "constant") != "constant":
         raise Unsupported("np.pad mode")
-    if not (isinstance(width, tuple) and len(width) == 2 and all(isinstance(w, int) for w in width)):
+    if not (isinstance(width, tuple) and len(width) == 2):
         raise Unsupported("np.pad width")
-    if isinstance(v, NArr) and v.ndim == 1:
+    if isinstance(v, NArr) and v.ndim == 1 and all(isinstance(w, int) for w in width):
         used(eng, "np.pad-1d-constant-zero")
         return NArr((v.shape[0] + width[0] + width[1],), [0] * width[0] + list(v.items) + [0] * width[1], v.kind, v.dtype)
+    if type(v) is SArr and width[0] == 0 and not isinstance(width[0], Sym) and kind_of(width[1]) == "int":
+        used(eng, "np.pad-1d-constant-zero")
+        m = to_z3(width[1], "int")
+        if not eng.spec_mode:
+            g = z3.simplify(m >= 0)
+            if z3.is_false(g):
+                raise ProgExc(ValueError, "index can't contain negative values")
+            if not z3.is_true(g):
+                eng.prove(eng.site("pad-width-nonnegative"), m >= 0, "safety", "np.pad raises ValueError for a negative width")
+        n = v.nz()
+        zero = to_z3(False if v.kind == "bool" else 0, v.kind)
+        return _defined(eng, "padded", v.kind, z3.simplify(n + m), lambda i: z3.If(i < n, z3.Select(v.arr, i), zero), v.dtype)
     raise Unsupported("np.pad on this array")
 
 
 def np_delete(eng, args, kwargs):
-    """np.delete(v, [j]) of a 1-D array of concrete shape: fresh array without position j (j may be symbolic:
-    out[i] = v[i] if i < j else v[i+1]); an out-of-range j raises IndexError as numpy does."""
+    """np.delete(v, [j]) of a 1-D array (concrete shape or symbolic length): fresh array without position j (j may be
+    symbolic: out[i] = v[i] if i < j else v[i+1]); an out-of-range j raises IndexError as numpy does."""
     v, obj = args[0], args[1]
     if kwargs:
         raise Unsupported("np.delete axis")
     idxs = obj.items if isinstance(obj, PList) and obj.items is not None else ([obj] if kind_of(obj) == "int" else None)
-    if idxs is None or len(idxs) != 1 or not (isinstance(v, NArr) and v.ndim == 1):
+    if idxs is None or len(idxs) != 1 or not ((isinstance(v, NArr) and v.ndim == 1) or type(v) is SArr):
         raise Unsupported("np.delete form")
     used(eng, "np.delete-1d-single-position")
+    if type(v) is SArr:
+        jz, n = to_z3(idxs[0], "int"), v.nz()
+        if not eng.spec_mode:
+            if not eng.branch(eng.sbool(z3.And(jz >= -n, jz < n))):
+                raise ProgExc(IndexError, "np.delete index out of bounds")
+        jn = z3.simplify(z3.If(jz < 0, jz + n, jz))
+        return _defined(eng, "deleted", v.kind, z3.simplify(n - 1), lambda i: z3.If(i < jn, z3.Select(v.arr, i), z3.Select(v.arr, i + 1)), v.dtype)
     j, n = idxs[0], v.shape[0]
     items = list(v.items)
     if not isinstance(j, Sym):
